@@ -29,7 +29,8 @@ ASSUME13 = [
     "first, and the answer must not be taken for the vector's; some GETINFO vectors are issued twice in a row behind a busy connection "
     "(two callers asking the same): both must get the value; some are issued while a multi-line event is half received; some are "
     "fallbacks, issued from the error handler of a request Tor has just refused; some follow a completely answered incremental "
-    "(per-line callback) request; during some, another control connection of the same process receives a data-block reply of its own",
+    "(per-line callback) request; during some, another control connection of the same process receives a data-block reply of its own; before some, the "
+    "very same exchange took place (on this and on another connection) and the callers took their results apart",
 ]
 CRIT12 = ["a", " ", "\t", '"', "\\", "=", "\r", "\n"]
 CRIT13 = ["a", "=", " ", '"', "'", "2", "5", "0", ".", "O", "K"]
@@ -137,7 +138,7 @@ def run(pid, tier, seed):
         rep.assumptions = list(ASSUME13)
         rep.tlc("KvLine_MC (grammar round trip)", tlc.run_tlc("KvLine_MC", "KvLine_MC_quick.cfg", workers=16, timeout=900))
         recs = []
-        noises = ["none"] * 6 + ["%s@%s" % (sh, at) for sh in ("midline", "block", "single") for at in ("before", "during")] + ["cancel@before"] * 2 + ["twin@before"] * 2 + ["split@before"] * 2 + ["fallback@before"] * 2 + ["incremental@before"] * 2 + ["otherconn@during"] * 2
+        noises = ["none"] * 6 + ["%s@%s" % (sh, at) for sh in ("midline", "block", "single") for at in ("before", "during")] + ["cancel@before"] * 2 + ["twin@before"] * 2 + ["split@before"] * 2 + ["fallback@before"] * 2 + ["incremental@before"] * 2 + ["otherconn@during"] * 2 + ["spoiled@before"] * 3
         for i, v in enumerate(vectors13(tier, seed)):
             noise = rng.choice(noises)
             # every other single-key request goes through the single-value form of the API
